@@ -398,7 +398,10 @@ impl Observer for SimDisk {
     fn event(&self, fd: RawFd, op: &Op<'_>, site: &'static str) -> Verdict {
         if self.yield_on_events && !matches!(op, Op::Read { .. }) {
             // I/O boundaries are scheduling points: other tasks may run between two system calls.
-            simrt::shuttle::thread::yield_now();
+            // A plain switch, not `yield_now`: a yield makes the PCT scheduler drop the caller to the
+            // lowest priority, so a task doing I/O could never stay ahead of the background tasks
+            // and PCT could not starve one of them past the end of a commit.
+            simrt::shuttle::thread::sleep(std::time::Duration::ZERO);
         }
         let mut stall = 0u32;
         let verdict = {
